@@ -254,9 +254,61 @@ def _f(o: Any):
     return None
 
 
+CANON = [False]  # canonical-UF mode (C07): normalisations that are EXACT identities of IEEE-754 arithmetic
+
+
+def _strip_neg(t):
+    """(negated?, core) with t == (-core if negated else core)."""
+    neg = False
+    while True:
+        if z3.is_app(t) and t.decl().kind() == z3.Z3_OP_FPA_NEG:
+            neg = not neg
+            t = t.arg(0)
+            continue
+        ts = z3.simplify(t)
+        if isinstance(ts, z3.FPNumRef) and not ts.isNaN() and ts.isNegative() and not ts.isZero():
+            return (not neg), z3.simplify(z3.fpNeg(ts))
+        return neg, t
+
+
+def _canon_arith(name: str, a, b):
+    """IEEE-exact rewrites so that Python's and gfortran's spellings of one expression become one term:
+    + and * commutative; x + x == 2 * x; a + (-b) == a - b; (-a) * b == -(a * b); a / (-b) == -(a / b);
+    x ** 2 == x * x (what both NumPy and gfortran compute for a square)."""
+    if name in ('add', 'sub'):
+        na, ca = _strip_neg(a)
+        nb, cb = _strip_neg(b)
+        if name == 'sub':
+            nb = not nb
+        # now: (±ca) + (±cb)
+        if na and nb:
+            return z3.fpNeg(_canon_arith('add', ca, cb))
+        if na and not nb:
+            return UF_SUB(cb, ca)
+        if nb and not na:
+            return UF_SUB(ca, cb)
+        if ca.eq(cb):
+            return _canon_arith('mul', ca, fpval(2.0))
+        if ca.get_id() > cb.get_id():
+            ca, cb = cb, ca
+        return UF_ADD(ca, cb)
+    if name in ('mul', 'div'):
+        na, ca = _strip_neg(a)
+        nb, cb = _strip_neg(b)
+        if name == 'mul' and ca.get_id() > cb.get_id():
+            ca, cb = cb, ca
+        core = UF_MUL(ca, cb) if name == 'mul' else UF_DIV(ca, cb)
+        return z3.fpNeg(core) if na != nb else core
+    if name == 'pow' and z3.simplify(b).eq(z3.simplify(fpval(2.0))):
+        return _canon_arith('mul', a, a)
+    return _UF[name](a, b)
+
+
 def _arith(name: str, a, b):
     if ARITH_MODE[0] == 'ieee':
         return _IEEE[name](a, b)
+    if CANON[0]:
+        return _canon_arith(name, a, b)
     return _UF[name](a, b)
 
 
@@ -357,6 +409,8 @@ class SFloat:
         return self
 
     def __abs__(self):
+        if CANON[0] and z3.is_app(self.t) and self.t.decl().name() in ('uf_exp', 'uf_sqrt'):
+            return self   # |exp(x)| == exp(x), |sqrt(x)| == sqrt(x): the compiler drops the abs
         return SFloat(z3.fpAbs(self.t))
 
     # methods NumPy's object loops call
